@@ -85,12 +85,20 @@ pub fn parse_variable(text: &str) -> Result<Variable> {
         .next()
         .expect("Parsing a variable failed.");
 
-    Ok(parse_variable_pair(variable))
+    try_parse_variable_pair(variable)
 }
 
 /// Parses a `Scalar` from a `Pair` with a literal value.
 /// This `Pair` must be `Rule::Literal`.
+#[cfg(test)]
 fn parse_literal(literal: Pair) -> Value {
+    try_parse_literal(literal).expect("literal is in range")
+}
+
+/// Parses a `Scalar` from a `Pair` with a literal value, failing on an integer literal that does
+/// not fit into 64 bits (the grammar does not bound the number of digits).
+/// This `Pair` must be `Rule::Literal`.
+fn try_parse_literal(literal: Pair) -> Result<Value> {
     if literal.as_rule() != Rule::Literal {
         panic!("Expected literal.");
     }
@@ -100,7 +108,7 @@ fn parse_literal(literal: Pair) -> Value {
         .next()
         .expect("Get into the rule inside literal.");
 
-    match literal.as_rule() {
+    let value = match literal.as_rule() {
         Rule::NilLiteral => Value::Nil,
         Rule::EmptyLiteral => Value::State(crate::model::State::Empty),
         Rule::BlankLiteral => Value::State(crate::model::State::Blank),
@@ -110,12 +118,10 @@ fn parse_literal(literal: Pair) -> Value {
 
             Value::scalar(trim_quotes.to_owned())
         }
-        Rule::IntegerLiteral => Value::scalar(
-            literal
-                .as_str()
-                .parse::<i64>()
-                .expect("Grammar ensures matches are parseable as integers."),
-        ),
+        Rule::IntegerLiteral => Value::scalar(literal.as_str().parse::<i64>().map_err(|_| {
+            Error::with_msg("Integer literal out of range")
+                .context("literal", literal.as_str().to_owned())
+        })?),
         Rule::FloatLiteral => Value::scalar(
             literal
                 .as_str()
@@ -129,12 +135,20 @@ fn parse_literal(literal: Pair) -> Value {
                 .expect("Grammar ensures matches are parseable as bools."),
         ),
         _ => unreachable!(),
-    }
+    };
+    Ok(value)
 }
 
 /// Parses a `Variable` from a `Pair` with a variable.
 /// This `Pair` must be `Rule::Variable`.
+#[cfg(test)]
 fn parse_variable_pair(variable: Pair) -> Variable {
+    try_parse_variable_pair(variable).expect("literals are in range")
+}
+
+/// Parses a `Variable` from a `Pair` with a variable.
+/// This `Pair` must be `Rule::Variable`.
+fn try_parse_variable_pair(variable: Pair) -> Result<Variable> {
     if variable.as_rule() != Rule::Variable {
         panic!("Expected variable.");
     }
@@ -148,14 +162,16 @@ fn parse_variable_pair(variable: Pair) -> Variable {
         .to_owned();
     let mut variable = Variable::with_literal(first_identifier);
 
-    let indexes = indexes.map(|index| match index.as_rule() {
-        Rule::Identifier => Expression::with_literal(index.as_str().to_owned()),
-        Rule::Value => parse_value(index),
-        _ => unreachable!(),
-    });
+    let indexes: Result<Vec<_>> = indexes
+        .map(|index| match index.as_rule() {
+            Rule::Identifier => Ok(Expression::with_literal(index.as_str().to_owned())),
+            Rule::Value => parse_value(index),
+            _ => unreachable!(),
+        })
+        .collect();
 
-    variable.extend(indexes);
-    variable
+    variable.extend(indexes?);
+    Ok(variable)
 }
 
 /// Parses an `Expression` from a `Pair` with a value.
@@ -164,7 +180,7 @@ fn parse_variable_pair(variable: Pair) -> Variable {
 /// In this runtime, value refers to either a literal value or a variable.
 ///
 /// This `Pair` must be `Rule::Value`.
-fn parse_value(value: Pair) -> Expression {
+fn parse_value(value: Pair) -> Result<Expression> {
     if value.as_rule() != Rule::Value {
         panic!("Expected value.");
     }
@@ -172,8 +188,8 @@ fn parse_value(value: Pair) -> Expression {
     let value = value.into_inner().next().expect("Get inside the value.");
 
     match value.as_rule() {
-        Rule::Literal => Expression::Literal(parse_literal(value)),
-        Rule::Variable => Expression::Variable(parse_variable_pair(value)),
+        Rule::Literal => Ok(Expression::Literal(try_parse_literal(value)?)),
+        Rule::Variable => Ok(Expression::Variable(try_parse_variable_pair(value)?)),
         _ => unreachable!(),
     }
 }
@@ -196,14 +212,14 @@ fn parse_filter(filter: Pair, options: &Language) -> Result<Box<dyn Filter>> {
         match arg.as_rule() {
             Rule::PositionalFilterArgument => {
                 let value = arg.into_inner().next().expect("Rule ensures value.");
-                let value = parse_value(value);
+                let value = parse_value(value)?;
                 positional_args.push(value);
             }
             Rule::KeywordFilterArgument => {
                 let mut arg = arg.into_inner();
                 let key = arg.next().expect("Rule ensures identifier.").as_str();
                 let value = arg.next().expect("Rule ensures value.");
-                let value = parse_value(value);
+                let value = parse_value(value)?;
                 keyword_args.push((key, value));
             }
             _ => unreachable!(),
@@ -245,7 +261,7 @@ fn parse_filter_chain(chain: Pair, options: &Language) -> Result<FilterChain> {
         chain
             .next()
             .expect("A filterchain always has starts by a value."),
-    );
+    )?;
     let filters: Result<Vec<_>> = chain.map(|f| parse_filter(f, options)).collect();
     let filters = filters?;
 
@@ -971,8 +987,8 @@ impl<'a> TagToken<'a> {
     /// Do not confuse this value with `liquid-value`'s `Value`.
     /// In this runtime, value refers to either a literal value or a variable.
     pub fn expect_value(mut self) -> TryMatchToken<'a, Expression> {
-        match self.unwrap_value() {
-            Ok(t) => TryMatchToken::Matches(parse_value(t)),
+        match self.unwrap_value().and_then(|t| parse_value(t).map_err(|_| ())) {
+            Ok(t) => TryMatchToken::Matches(t),
             Err(_) => {
                 self.expected.push(Rule::Value);
                 TryMatchToken::Fails(self)
@@ -982,8 +998,11 @@ impl<'a> TagToken<'a> {
 
     /// Tries to obtain a `Variable` from this token.
     pub fn expect_variable(mut self) -> TryMatchToken<'a, Variable> {
-        match self.unwrap_variable() {
-            Ok(t) => TryMatchToken::Matches(parse_variable_pair(t)),
+        match self
+            .unwrap_variable()
+            .and_then(|t| try_parse_variable_pair(t).map_err(|_| ()))
+        {
+            Ok(t) => TryMatchToken::Matches(t),
             Err(_) => {
                 self.expected.push(Rule::Variable);
                 TryMatchToken::Fails(self)
@@ -1008,8 +1027,11 @@ impl<'a> TagToken<'a> {
     ///
     /// The value is returned as a `Value`.
     pub fn expect_literal(mut self) -> TryMatchToken<'a, Value> {
-        match self.unwrap_literal() {
-            Ok(t) => TryMatchToken::Matches(parse_literal(t)),
+        match self
+            .unwrap_literal()
+            .and_then(|t| try_parse_literal(t).map_err(|_| ()))
+        {
+            Ok(t) => TryMatchToken::Matches(t),
             Err(_) => {
                 self.expected.push(Rule::Literal);
                 TryMatchToken::Fails(self)
@@ -1028,10 +1050,15 @@ impl<'a> TagToken<'a> {
         }
 
         let mut range = token.into_inner();
-        TryMatchToken::Matches((
-            parse_value(range.next().expect("start")),
-            parse_value(range.next().expect("end")),
-        ))
+        let start = parse_value(range.next().expect("start"));
+        let end = parse_value(range.next().expect("end"));
+        match (start, end) {
+            (Ok(start), Ok(end)) => TryMatchToken::Matches((start, end)),
+            _ => {
+                self.expected.push(Rule::Range);
+                TryMatchToken::Fails(self)
+            }
+        }
     }
 
     /// Returns `Ok` if and only if the tokens' str is equal to the given str.
